@@ -79,6 +79,9 @@ SEEDED_RET = dict(SEEDED_G, **{"SeedTail": "FALSE", "SeedMaint": '"mc2"', "Maint
 # journal record used to shadow a later valid create of the same name after a restart)
 BADCFG = dict(BASE, **{"Cfgs": "<- c_CfgsBad", "Keys": "<- c_Empty", "KVals": "<- c_Empty", "Maints": "<- c_Empty", "ALs": "<- c_Empty",
                        "Targets": "<- c_Empty", "MVals": "<- c_MVals1", "Vecs": "<- c_Vecs1b", "MaxFile": 5, "MaxRej": 2})
+# the key-value store alone (no index can be created): every history of five (quick) / seven (thorough) calls
+KVONLY = dict(BASE, **{"Cfgs": "<- c_Empty", "Ids": "<- c_Empty", "Maints": "<- c_Empty", "ALs": "<- c_Empty", "Targets": "<- c_Empty",
+                       "MaxFile": 6, "MaxRej": 0})
 IMPORT0 = dict(BASE, **{"Imports": "TRUE", "Keys": "<- c_Empty", "KVals": "<- c_Empty", "Cfgs": "<- c_CfgsB", "Maints": "<- c_Empty",
                         "ALs": "<- c_Empty", "Targets": "<- c_Empty", "MVals": "<- c_MVals1", "MaxFile": 5, "MaxRej": 0, "MaxCtr": 4})
 
@@ -303,6 +306,15 @@ def run(prop, tier):
         for i, b in enumerate(bb):
             b["id"] = "bc%d" % i
         plans.append((bc_, bb))
+    if prop in ("C01", "C04"):
+        # the transition corpus of the KV-only profile: the first-found history of every state extended by every call --
+        # "set, snapshot, set again, delete" (the delete of a key that is both in the image and in the log) is in it
+        kv = dict(KVONLY, MaxOps=5 if quick else 7, MaxFile=6 if quick else 8)
+        ckv = corpus(chk, "MC_Kektor_kvonly_trans", kv, spec="SpecCorpusT", timeout=3000)
+        bkv, _ = vlib.behaviours_from_corpus(ckv, max_behaviours=2500 if quick else 40000, rng=rng, need=lambda ops: len(ops) >= 3)
+        for i, b in enumerate(bkv):
+            b["id"] = "kv%d" % i
+        plans.append((kv, bkv))
     if prop in ("C01", "C04"):
         i0 = dict(IMPORT0, MaxOps=4 if quick else 5)
         c0 = corpus(chk, "MC_Kektor_import0_corpus", i0, workers=8, timeout=3000)
